@@ -1,11 +1,12 @@
-SPECIFICATION Spec
+SPECIFICATION TraceSpec
 CONSTANTS
   Streams <- TwoStreams
   MaxChunks = 3
   Chunk = 2
   InitWin = 1
   ConnWin = 4
-  MaxCredit = 8
+  MaxCredit = 1000
   Faults = {"rst", "close"}
   Dev <- CodeDev
+INVARIANT Report
 CHECK_DEADLOCK FALSE
